@@ -150,8 +150,13 @@ def run(ctx: core.Ctx):
             month_tot.setdefault((d.year, d.month), {})[want_idx] = nd
         # round trips, order, arithmetic
         lab = str(dk)
-        if Dekad(lab).raw != dk.raw or Dekad(dk.raw).raw != dk.raw or Dekad(s).raw != dk.raw or dk.raw != 36 * d.year + 3 * (d.month - 1) + want_idx - 1:
-            ctx.fail("Dekad", inp, dict(label=lab, raw=dk.raw), "date <-> raw <-> label are mutually inverse")
+        try:
+            rt = Dekad(lab).raw
+        except (ValueError, AssertionError) as ex:
+            rt = repr(ex)
+        if rt != dk.raw or Dekad(dk.raw).raw != dk.raw or Dekad(s).raw != dk.raw or dk.raw != 36 * d.year + 3 * (d.month - 1) + want_idx - 1:
+            ctx.fail("Dekad", inp, dict(label=lab, raw=dk.raw, from_label=rt), "date <-> raw <-> label are mutually inverse")
+            continue
         nn = rng.randint(-40, 40)
         if 36 <= dk.raw + nn < 360000:
             d2 = dk + nn
